@@ -29,6 +29,7 @@ extern "C" void step_history_rounds() { body_history_rounds((unsigned) ck0, ck1,
 #ifdef VM_UTILITY
 extern "C" void step_utilize()   { body_utilize(ck0, ck1); }       // kind (4 utilize / 0 change), region
 extern "C" void step_randomize() { body_randomize(ck0, ck1); }
+extern "C" void step_randomize_regions() { body_randomize_regions(ck0, ck1); }
 extern "C" void step_randomize_exact() { body_randomize_exact(ck0, ck1); }   // kind (5 / 0), region     // kind (5 randomize / 0 change), region
 extern "C" void proof_anonymous_defaults() { body_anonymous_defaults(); }
 extern "C" void step_utilize_nested() { body_utilize_nested(ck0, ck1); }   // region, full (1 = also the product/mean rule of the enclosing region)
